@@ -415,7 +415,7 @@ def run_check(pid, tier="quick", seed=0, n=None, budget_s=None, workers=None, wr
             continue
         r, v = hits[0]
         case = r["case"]
-        mcase, mv, steps = minimise(pid, case, sig, budget_s=getattr(mod, "MINIMISE_BUDGET_S", 60))
+        mcase, mv, steps = minimise(pid, case, sig, budget_s=float(os.environ.get("VERIF_MINIMISE_BUDGET_S", 0)) or getattr(mod, "MINIMISE_BUDGET_S", 60))
         if mv is None:
             harness_errors.append(f"violation {sig} of seed {r['run_seed']} did not reproduce in the parent process")
             continue
